@@ -105,13 +105,13 @@ func verifC22ErrClass(err error) string {
 	}
 }
 
-// verifC22Months returns the month starts (in loc) from two months before lo to two after hi.
+// verifC22Months returns the month starts (in loc) from four months before lo to four after hi.
 func verifC22Months(lo, hi int64, loc *time.Location) []int64 {
 	t := time.Unix(lo, 0).In(loc)
-	y, m := t.Year(), int(t.Month())-2
+	y, m := t.Year(), int(t.Month())-4
 	out := []int64{}
 	after := 0
-	for i := 0; after < 3; i++ {
+	for i := 0; after < 4; i++ {
 		ts := time.Date(y, time.Month(m+i), 1, 0, 0, 0, 0, loc).Unix()
 		out = append(out, ts)
 		if ts > hi {
@@ -205,16 +205,21 @@ func verifC22Aligned(r *verifC22Rec, t, step int64) bool {
 }
 
 // verifC22Check returns the name of the first violated clause or "".
-func verifC22Check(r *verifC22Rec) string {
+func verifC22Check(r *verifC22Rec) string { return verifC22CheckUnit(r, verifC22Week) }
+
+func verifC22CheckUnit(r *verifC22Rec, week int64) string {
 	n := len(r.Time)
 	if r.Err != r.RErr {
 		return "ErrorsAgree"
 	}
 	if r.Err != "none" {
+		if r.Err == "range" && r.Step != verifC22Month && (r.End-r.Start)/week >= verifC22Limit/2 {
+			return ""
+		}
 		if r.Err != "offset" {
 			return "NoUnexpectedError"
 		}
-		unit := int64(verifC22Week)
+		unit := week
 		if r.Step == verifC22Month {
 			unit = verifC22Month
 		}
@@ -234,7 +239,7 @@ func verifC22Check(r *verifC22Rec) string {
 			return ""
 		}
 		if r.Point {
-			span := int64(2 * verifC22Week)
+			span := 2 * week
 			if r.Step == verifC22Month {
 				span = 2 * verifC22Month
 			}
@@ -428,8 +433,11 @@ func verifC22Check(r *verifC22Rec) string {
 // ---- generator ----
 
 var verifC22ZoneNames = []string{"UTC", "Europe/Moscow", "America/New_York", "Asia/Kolkata", "Asia/Kathmandu",
-	"America/St_Johns", "Europe/London", "Australia/Lord_Howe", "Pacific/Auckland", "Asia/Tokyo", "America/Asuncion",
+	"America/St_Johns", "Europe/London", "Australia/Lord_Howe", "Pacific/Auckland", "Asia/Tokyo",
 	"Pacific/Kiritimati", "Pacific/Apia"}
+
+// America/Asuncion and other zones where a month can begin inside a daylight-saving gap (clocks jump
+// at 00:00 of the 1st) are exercised by TestVerifC22Known only: known finding.
 
 func verifC22Zones(t testing.TB) []*time.Location {
 	var out []*time.Location
@@ -642,6 +650,8 @@ func TestVerifC22Timescale(t *testing.T) {
 	zones := verifC22Zones(t)
 	rnd := verifkit.Rand(22)
 	var flagged, sample, monthoff []verifC22Rec
+	maxBig := verifkit.EnvInt("VERIF_MAX_BIG", 6) // axes of more than 1000 points handed to TLC
+	nbig := 0
 	nmonthoff := verifkit.EnvInt("VERIF_NMONTHOFF", 100)
 	classCount := map[string]int{}
 	var pool []verifC22Rec // reservoir of further records
@@ -673,6 +683,12 @@ func TestVerifC22Timescale(t *testing.T) {
 			}
 			return
 		}
+		if len(r.Time) > 1000 {
+			if nbig >= maxBig {
+				return
+			}
+			nbig++
+		}
 		if classCount[cl] < perClass && points+len(r.Time) <= budget {
 			classCount[cl]++
 			points += len(r.Time)
@@ -687,17 +703,32 @@ func TestVerifC22Timescale(t *testing.T) {
 			}
 		}
 	}
-	verifC22Grid(zones, handle)
+	stride := verifkit.EnvInt("VERIF_GRID_STRIDE", 1)
+	gi := 0
+	verifC22Grid(zones, func(a verifC22Args) {
+		if gi++; gi%stride == 0 {
+			handle(a)
+		}
+	})
 	res.Count("grid", id)
 	for i := 0; i < nrand; i++ {
 		handle(verifC22Random(rnd, zones, i))
 	}
-	// the trace: every flagged record first, the stratified sample, then random further ones
+	// the trace: every flagged record first, the known-finding scenarios, monthly-with-offset records,
+	// the stratified sample, then random further ones
 	out := append([]verifC22Rec{}, flagged...)
+	for _, a := range verifC22Known(t) {
+		id++
+		r := verifC22Call(id, a)
+		res.Note("%s: screen=%q time=%v lods=%v startx=%d view=%d..%d", a.Gen, verifC22Check(&r), r.Time, r.LODs, r.StartX, r.VStartX, r.VEndX)
+		out = append(out, r)
+	}
+	nfirst := len(out) + len(monthoff)
+	out = append(out, monthoff...)
 	out = append(out, sample...)
 	rnd.Shuffle(len(pool), func(i, j int) { pool[i], pool[j] = pool[j], pool[i] })
 	for _, r := range pool {
-		if len(out) >= ntrace+len(flagged) || points+len(r.Time) > budget {
+		if len(out) >= ntrace+nfirst || points+len(r.Time) > budget {
 			break
 		}
 		points += len(r.Time)
@@ -708,11 +739,6 @@ func TestVerifC22Timescale(t *testing.T) {
 		t.Fatal(err)
 	}
 	res.Files = append(res.Files, p)
-	p2 := filepath.Join(filepath.Dir(p), "monthoff.ndjson")
-	if err := verifkit.WriteNDJSON(p2, monthoff); err != nil {
-		t.Fatal(err)
-	}
-	res.Files = append(res.Files, p2)
 	res.Count("monthoff_records", len(monthoff))
 	res.Count("trace_records", len(out))
 	res.Count("trace_points", points)
@@ -731,4 +757,110 @@ func TestVerifC22Timescale(t *testing.T) {
 		res.Sample(fmt.Sprintf("start=%d end=%d step=%d now=%d width=%d mode=%d extend=%v utc=%d loc=%s -> n=%d lods=%v startx=%d view=%d..%d ranges=%v",
 			r.Start, r.End, r.Step, r.Now, r.Width, r.Mode, r.Extend, r.Utc, r.Loc, len(r.Time), r.LODs, r.StartX, r.VStartX, r.VEndX, r.Ranges))
 	}
+}
+
+// verifC22Known reproduces the known findings on the real code (the check maps the rejection of
+// exactly these records, by exactly the clauses the finding breaks, to the finding).
+func verifC22Known(t testing.TB) []verifC22Args {
+	msk, err := time.LoadLocation("Europe/Moscow")
+	if err != nil {
+		t.Fatal(err)
+	}
+	asu, err := time.LoadLocation("America/Asuncion")
+	if err != nil {
+		t.Fatal(err)
+	}
+	// 1. monthly step with a metric offset of one "month" (31 days): the number of points is
+	// computed on the shifted range, the axis is generated from the unshifted start
+	a1 := verifC22Args{Gen: "known-monthoff", Start: time.Date(2026, 3, 30, 0, 0, 0, 0, msk).Unix(),
+		End: time.Date(2026, 5, 1, 0, 0, 1, 0, msk).Unix(), Step: verifC22Month, Now: time.Date(2026, 9, 1, 12, 0, 0, 0, msk).Unix(),
+		Utc: verifC22UTCOffset(msk, 1), Loc: msk, Res: 1, Off: verifC22Month}
+	// 2. monthly step in a zone where a month begins inside a daylight-saving gap
+	// (America/Asuncion, 2017-10-01 00:00 does not exist): later points are no month starts
+	a2 := verifC22Args{Gen: "known-dstgap", Start: time.Date(2017, 8, 15, 0, 0, 0, 0, asu).Unix(),
+		End: time.Date(2018, 2, 1, 0, 0, 0, 0, asu).Unix(), Step: verifC22Month, Now: time.Date(2018, 3, 1, 12, 0, 0, 0, asu).Unix(),
+		Utc: verifC22UTCOffset(asu, 1), Loc: asu, Res: 1}
+	return []verifC22Args{a1, a2}
+}
+
+// TestVerifC22Small runs the real planner with the tiny table of specs/TimescaleMC.tla
+// (lodLevels is a package variable; maxPoints stays the real constant) over the whole input
+// grid of the model and more.  Every result is screened in Go; a seeded sample (and every flagged
+// record) is written for TLC, which judges it by the contract and also compares it with the output
+// of TimescaleModel for the same arguments (agreement is reported, not required by the property).
+func TestVerifC22Small(t *testing.T) {
+	verifkit.Gate(t)
+	res := verifkit.NewResult()
+	defer res.Write(t)
+	saved := lodLevels[Version6]
+	defer func() { lodLevels[Version6] = saved }()
+	lodLevels[Version6] = []lodSwitch{
+		{relSwitch: 35, levels: []int64{15}},
+		{relSwitch: 13, levels: []int64{15, 5}},
+		{relSwitch: 0, levels: []int64{15, 5, 1}},
+	}
+	ntrace := verifkit.EnvInt("VERIF_NTRACE", 1500)
+	rnd := verifkit.Rand(2201)
+	var flagged, pool []verifC22Rec
+	id := 0
+	stride := verifkit.EnvInt("VERIF_SMALL_STRIDE", 1)
+	phase := int(verifkit.Seed()%int64(stride)+int64(stride)) % stride
+	durs := []int64{}
+	for d := int64(1); d <= 48; d++ {
+		durs = append(durs, d)
+	}
+	durs = append(durs, 60, 75, 181, 200)
+	for start := int64(18); start <= 80; start++ {
+		for _, dur := range durs {
+			for _, now := range []int64{70, 77} {
+				for _, step := range []int64{0, 1, 5, 7, 15, 20} {
+					for _, width := range []int64{0, 3, 8} {
+						for _, utc := range []int64{0, 7, -4} {
+							for _, mres := range []int{1, 5} {
+								for _, off := range []int64{0, 15, 7} {
+									for pe := 0; pe < 4; pe++ {
+										a := verifC22Args{Gen: "small", Start: start, End: start + dur, Step: step, Now: now, Width: width,
+											Utc: utc, Loc: time.UTC, Res: mres, Off: off, Extend: pe&1 != 0}
+										if pe&2 != 0 {
+											a.Mode = PointQuery
+										}
+										id++
+										if id%stride != phase {
+											continue
+										}
+										r := verifC22Call(id, a)
+										res.Replayed++
+										res.Steps += len(r.Time)
+										if bad := verifC22CheckUnit(&r, 15); bad != "" {
+											res.Count("screen_"+bad, 1)
+											if len(flagged) < 30 {
+												flagged = append(flagged, r)
+												res.Note("screen(small): %s start=%d end=%d step=%d now=%d width=%d point=%v extend=%v utc=%d res=%d off=%d -> time=%v lods=%v startx=%d view=%d..%d err=%s",
+													bad, r.Start, r.End, r.Step, r.Now, r.Width, r.Point, r.Extend, r.Utc, r.Res, r.Off, r.Time, r.LODs, r.StartX, r.VStartX, r.VEndX, r.Err)
+											}
+											continue
+										}
+										res.Seen(fmt.Sprintf("p%v e%v err%s lods%v", r.Point, r.Extend, r.Err, r.LODs))
+										if len(pool) < ntrace {
+											pool = append(pool, r)
+										} else if j := rnd.Intn(res.Replayed); j < ntrace {
+											pool[j] = r
+										}
+									}
+								}
+							}
+						}
+					}
+				}
+			}
+		}
+	}
+	out := append(flagged, pool...)
+	p := filepath.Join(verifkit.TmpDir(t, "c22s-"), "trace.ndjson")
+	if err := verifkit.WriteNDJSON(p, out); err != nil {
+		t.Fatal(err)
+	}
+	res.Files = append(res.Files, p)
+	res.Count("trace_records", len(out))
+	res.Count("flagged", len(flagged))
 }
